@@ -142,7 +142,7 @@ func isArrayKey(v LNumber) bool {
 
 func parseNumber(number string) (LNumber, error) {
 	var value LNumber
-	number = strings.Trim(number, " \t\n")
+	number = strings.Trim(number, " \t\n\v\f\r")
 	if v, err := strconv.ParseInt(number, 0, LNumberBit); err != nil {
 		if v2, err2 := strconv.ParseFloat(number, LNumberBit); err2 != nil {
 			return LNumber(0), err2
